@@ -17,6 +17,8 @@ type Mutant struct {
 	Old    string // literal text, must occur exactly Nth+... times
 	New    string
 	Nth    int    // 0 = the text must be unique; k>0 = replace the k-th occurrence
+	Old2   string // optional second edit in the same file (unique text)
+	New2   string
 	Expect string // substring of the violated obligation's key
 	Why    string // behaviour broken by the mutant
 }
@@ -52,6 +54,12 @@ func (m *Mutant) Apply(repo string) (map[string][]byte, bool, error) {
 			from = idx + len(m.Old)
 		}
 		out = s[:idx] + m.New + s[idx+len(m.Old):]
+	}
+	if m.Old2 != "" {
+		if strings.Count(out, m.Old2) != 1 {
+			return nil, false, nil
+		}
+		out = strings.Replace(out, m.Old2, m.New2, 1)
 	}
 	return map[string][]byte{abs: []byte(out)}, true, nil
 }
